@@ -35,9 +35,9 @@ impl C08 {
         let words: Vec<(String, String)> = boot_d2.verif_dict().into_iter().map(|(n, k)| (n.to_string(), k.to_string())).collect();
         let scratch = format!("/verif/target/scratch/c08-{}-{}", std::process::id(), a.shard);
         let _ = std::fs::create_dir_all(&scratch);
-        let _ = std::fs::write(format!("{}/ok.xeh", scratch), "1 2 + drop : from-file 3 ;\n");
-        let _ = std::fs::write(format!("{}/bad.xeh", scratch), "1 2 + nosuch-in-file\n");
-        let _ = std::fs::write(format!("{}/data.bin", scratch), [1u8, 2, 3, 0, 255]);
+        write_scratch(&format!("{}/ok.xeh", scratch), "1 2 + drop : from-file 3 ;\n".as_bytes());
+        write_scratch(&format!("{}/bad.xeh", scratch), "1 2 + nosuch-in-file\n".as_bytes());
+        write_scratch(&format!("{}/data.bin", scratch), &[1u8, 2, 3, 0, 255]);
         C08 { seed: a.seed, boot, boot_d2, words, long_lived: None, scratch }
     }
 }
